@@ -202,14 +202,21 @@ func chainBytes(ders [][]byte) []byte {
 // signExchange runs the library's own MI-encode + sign steps; any failure or
 // panic is reported through ok=false (the case is then not emitted).
 func signExchange(e *sxg.Exchange, key keyMat, rs int, date, expires int64, certURL, validity string) (s signedEx) {
+	return signExchangeOpt(e, key, rs, true, date, expires, certURL, validity)
+}
+
+// signExchangeOpt with encode=false signs the exchange as it is (payload and digest header prepared by the caller)
+func signExchangeOpt(e *sxg.Exchange, key keyMat, rs int, encode bool, date, expires int64, certURL, validity string) (s signedEx) {
 	s = signedEx{e: e, key: key, certURL: certURL, validity: validity, date: date, expires: expires}
 	defer func() {
 		if rec := recover(); rec != nil {
 			s.ok = false
 		}
 	}()
-	if err := e.MiEncodePayload(rs); err != nil {
-		return
+	if encode {
+		if err := e.MiEncodePayload(rs); err != nil {
+			return
+		}
 	}
 	signer := &sxg.Signer{Date: time.Unix(date, 0), Expires: time.Unix(expires, 0), Certs: []*x509.Certificate{key.cert},
 		CertUrl: mustURL(certURL), ValidityUrl: mustURL(validity), PrivKey: key.priv}
@@ -383,6 +390,11 @@ func genC08(r *Rng, tier string) []Case {
 		validity := "https://" + randHost(r) + "/validity"
 		if r.Chance(1, 10) {
 			validity = "https://example.com/" + longu[:[]int{255, 256, 65535, 65536}[r.Intn(4)]]
+		}
+		if r.Chance(1, 10) { // fragment, query, odd escapes: the string is signed and announced as it is
+			if v2 := validity + []string{"#frag", "?q=1#f", "?", "/%7Ex", "?a=%zz"}[r.Intn(5)]; stableURL(v2) { // (url.Parse + String() drops an empty fragment)
+				validity = v2
+			}
 		}
 		date := baseDate + int64(r.Intn(1000))
 		expires := date + int64(r.Intn(700000))
@@ -837,6 +849,34 @@ func genC09(r *Rng, tier string) []Case {
 			cs = append(cs, Case{"sxg_verify", []Sx{exchangeInSx(c), Zi(d + 5), Zi(0), statusKnown(c.ResponseStatus), ft, xt, st}})
 		}
 	}
+	// the payload protected by the OTHER draft's encoding, its digest header and - the parameter is not covered by the
+	// signature - integrity naming that other encoding: consistent, correctly signed, and against the version's rule
+	for _, ver := range sxgVersions {
+		for _, relabel := range []bool{true, false} {
+			other, hdr, ce, ident := 0, "MI-Draft2", "mi-sha256-draft2", "mi-draft2"
+			if ver == version.Version1b1 {
+				other, hdr, ce, ident = 1, "Digest", "mi-sha256-03", "digest/mi-sha256-03"
+			}
+			e := mkExchange(r, ver, exOpts{contentType: true, payloadLen: 40, uri: "https://example.com/index.html"})
+			stream, dg := miEncodeRef(other, 16, e.Payload)
+			e.Payload = stream
+			e.ResponseHeaders.Set(hdr, dg)
+			e.ResponseHeaders.Set("Content-Encoding", ce)
+			s := signExchangeOpt(e, key, 16, false, d, d+100, certURL, "https://example.com/v")
+			if !s.ok {
+				continue
+			}
+			if relabel {
+				if pl, err := sh.ParseParameterisedList(e.SignatureHeaderValue); err == nil && len(pl) == 1 {
+					pl[0].Params["integrity"] = ident
+					if str, err := pl.String(); err == nil {
+						e.SignatureHeaderValue = str
+					}
+				}
+			}
+			cs = append(cs, verifyCase(s, e, d+5, 0, fetchTab(certURL, s.chain), xt, s.sigTab()))
+		}
+	}
 	reps := 1
 	if tier == "thorough" {
 		reps = 6
@@ -876,6 +916,9 @@ func genC09(r *Rng, tier string) []Case {
 				o := def()
 				o.extraResp = append(randExtra(r, r.Intn(3)), [2]string{randCase(r, h), "v"})
 				one(ver, o, d, d+100, "https://example.com/v", mid)
+				o = def() // ... present with an empty value
+				o.extraResp = append(randExtra(r, r.Intn(2)), [2]string{randCase(r, h), ""})
+				one(ver, o, d, d+100, "https://example.com/v", mid)
 				o = def()
 				o.extraResp = [][2]string{{"raw:" + []string{h, strings.ToUpper(h), randCase(r, h)}[r.Intn(3)], "v"}}
 				one(ver, o, d, d+100, "https://example.com/v", mid)
@@ -893,7 +936,7 @@ func genC09(r *Rng, tier string) []Case {
 			// validity URL origin variants
 			for _, v := range []string{"https://example.com/v", "https://example.com:443/v", "https://example.com:8443/v", "http://example.com/v",
 				"https://www.example.com/v", "https://example.org/v", "https://EXAMPLE.com/v", "https://example.com", "https://example.com./v", "https:/v",
-				"/v", "v", "//example.com/v", "?q", "", "./v", "//example.com:443/v", "https://example.com.evil.test/v", "https://example.co/v", "https://example.com:84/v"} {
+				"https://example.com/v#frag", "https://example.com/v?q=1#f", "/v", "v", "//example.com/v", "?q", "", "./v", "//example.com:443/v", "https://example.com.evil.test/v", "https://example.co/v", "https://example.com:84/v"} {
 				one(ver, def(), d, d+100, v, mid)
 			}
 			o2 := def()
